@@ -231,7 +231,11 @@ impl Ldap {
         // them by this point, any other operation discards them.
         self.search_opts = None;
         let (tx, rx) = oneshot::channel();
-        self.tx.send((id, op, req, self.controls.take(), tx))?;
+        if let Err(e) = self.tx.send((id, op, req, self.controls.take(), tx)) {
+            // The connection is gone; the ID just taken will never be used.
+            self.msgmap.lock().expect("msgmap mutex (op not sent)").1.remove(&id);
+            return Err(LdapError::from(e));
+        }
         let response = if let Some(timeout) = self.timeout.take() {
             let res = time::timeout(timeout, rx).await;
             if res.is_err() {
